@@ -53,6 +53,24 @@ fn prog_big(name: &str, setup: Vec<TOp>, threads: Vec<Vec<TOp>>) -> Arc<Prog> {
 
 use TOp::*;
 
+/// A table compaction with several output files (351-byte incompressible values, 300-byte files:
+/// an output closes when the entry after its second one is added) while a writer fills the
+/// memtable: the compaction thread flushes the rotated memtable between two of its outputs, and
+/// that flush's file garbage collection runs in the middle of the compaction (finished outputs
+/// are in no version yet).
+pub fn multi_output_compaction_program() -> Arc<Prog> {
+    let mut p = (*prog(
+        "compact-multi-output||put+put+put+put-rotating",
+        vec![Put(0, 1, 351), Put(1, 2, 351), Put(2, 3, 351), Put(3, 8, 351), Flush, Put(0, 4, 351), Flush],
+        vec![vec![Compact(None, None)], vec![Put(4, 5, 700), Put(5, 6, 700), Put(4, 9, 700), Put(5, 7, 8)]],
+    ))
+    .clone();
+    p.cfg = Cfg::new(2000, 300, 16, true);
+    // (the writer uses keys of its own, so the final reads of a..d go to the compaction's outputs)
+    p.keys = vec![b"a".to_vec(), b"b".to_vec(), b"c".to_vec(), b"d".to_vec(), b"e".to_vec(), b"f".to_vec()];
+    Arc::new(p)
+}
+
 /// The sharp programs: one per unlocked window named by the property's anchors.
 pub fn c05_sharp() -> Vec<Arc<Prog>> {
     vec![
@@ -96,6 +114,7 @@ pub fn c05_sharp() -> Vec<Arc<Prog>> {
         prog_big("get-b+get-b||put-a+put-a", vec![Put(0, 1, 8), Put(1, 2, 8)], vec![vec![Get(1), Get(1)], vec![Put(0, 3, 8), Put(0, 4, 8)]]),
         // snapshot read vs writer + flush
         prog("snapread||put+flush", vec![Put(0, 1, 8)], vec![vec![SnapRead(vec![0, 1])], vec![Put(0, 2, 8), Flush]]),
+        multi_output_compaction_program(),
     ]
 }
 
@@ -351,7 +370,8 @@ const SCHED_ASSUMPTIONS: &[&str] = &[
 pub fn c05(tier: &str) -> ! {
     let mut rep = Report::new("C05", tier, "model_checking");
     let t = tier == "thorough";
-    let own = |c: &str| c.starts_with("C05.");
+    // (a read that fails because its table file is gone is a lost read)
+    let own = |c: &str| c.starts_with("C05.") || c == "C11.live_deleted";
     if t {
         run_sched(&mut rep, "sharp/p2d4", &c05_sharp(), (2, 4), 16, false, 2, Duration::from_secs(2400), own);
         run_sched(&mut rep, "generated/p2d3", &c05_generated(), (2, 3), 2, false, 2, Duration::from_secs(1500), own);
@@ -431,6 +451,7 @@ pub fn c03_programs() -> Vec<Arc<Prog>> {
     ]
     .into_iter()
     .chain(levels_programs())
+    .chain(std::iter::once(multi_output_compaction_program()))
     .collect()
 }
 
